@@ -34,7 +34,14 @@ def nul_typestate(ck, ctx, entries, rule="nul-typestate"):
         ck.ob(rule, fn, True, "%s: %d read/peek site-contexts in %d calling contexts all have the scanner SAFE (no read after an un-returned NUL)" % (fn, n, ctxs), span=F.body(fn).loc, fn=fn, nontrivial=n > 0 or ctxs > 0)
     for v in ts.viol.values():
         ck.ob(rule, v["key"], False, "scanner may be %s (past the NUL terminator) when %s; deepest site %s" % (v["ghost"], v["what"], v["deepest"]), span=v["loc"], path=["via " + " -> ".join(x.split("::")[-1] for x in v["chain"])], fn=v["key"].split("->")[0])
-    ck.extra["typestate"] = dict(functions=len(fns), contexts=len(ts.memo), site_contexts=len(ts.site_keys), exits={e: sorted(map(str, r)) for e, r in res.items()})
+    # net-advance (termination) clause: every cycle of every loop in these functions consumes >= 1 byte
+    for (fn, k) in sorted(ts.loops_checked):
+        key = "%s|loop#%d" % (fn, k)
+        bad = ts.noadv.get(key)
+        ck.ob("advance", key, bad is None, ("every cycle through loop #%d of %s consumes at least one input byte (the cursor is bounded by the buffer, so the loop terminates)" % (k, fn)) if bad is None else "a cycle through loop #%d of %s may consume no input (lower bound of net advance %s): possible endless loop; reached via %s" % (k, fn, bad["lb"], " -> ".join(x.split("::")[-1] for x in bad["chain"])), span=(bad or {}).get("loc") or F.body(fn).loc, fn=fn)
+    ck.floor("scanner-driven loops checked for progress", len(ts.loops_checked), 8 if len(entries) > 1 else 3)
+    ck.extra["typestate"] = dict(functions=len(fns), contexts=len(ts.memo), site_contexts=len(ts.site_keys), loops=len(ts.loops_checked), exits={e: sorted({str((x[0], x[1])) for x in r}) for e, r in res.items()})
+    ck.extra["typestate_raw_exits"] = {e: sorted(r, key=str) for e, r in res.items()}
     ck.floor("functions under the NUL typestate", len(fns), 5)
     ck.floor("read/peek site-contexts checked", len(ts.site_keys), 10)
     return res
